@@ -11,7 +11,8 @@ from .. import common as C
 ID = 'C16'
 MODEL = 'c16'
 RUNFUN = 'run'
-COQ_TARGETS = ['theories/Properties/C16.vo', 'theories/Extract/RunC16.vo']
+COQ_TARGETS = ['theories/Properties/C16.vo', 'theories/Extract/RunC16.vo', 'theories/Properties/ChainDetector.vo']
+EXTRA_PROPERTIES = ['ChainDetector']   # cross-package composition theorems of the detector chain (C16 o C20, C16 o C20 o C16, C16 o C19 o C20)
 DESIGN_REF = 'DESIGN.md section 6, C16'
 TECHNIQUE = ('Coq proof (ring-generic sums for charge collection, rational order/floor reasoning for the ADC) about an '
              'executable model of lentil/detector.py + exact differential execution of the extracted model against '
